@@ -15,6 +15,7 @@ RULE = ('queries = multi- and single-integration SELECT/set operations/CTEs (gen
         'time-series joins (all time operators), INSERT..SELECT / UPDATE..FROM / DELETE with subquery / CREATE TABLE AS, x 6 catalog forms '
         '(names|dicts, projects, api integration, files/views, predictor list|legacy dict, default namespace); non-trivial = plan with >= 2 '
         'steps or planning raised; distinct by (query text, catalog form)')
+RULE += '; also: tables joined on a model column, two models with their own partition sizes, odd version suffixes, derived tables inside DML / UNION / IN, more model conjunct kinds, a second plan on the same planner'
 ASSUMPTIONS = ['every declared CTE is used by the generated query (an unused CTE would be a legitimate extra sink)',
                'the last step is the one that produces the answer']
 BUDGET = {'quick': (8, 240), 'thorough': (16, 1800)}
